@@ -45,6 +45,9 @@ fn("pyhms.core.problem.Problem.evaluate", abstract=True, params={"genome": "g"},
    ensures=[cl("transparent", "Transparent(self, genome, result, old(ncalls(inner(self))), ncalls(inner(self)))",
                tags="C16 C02 C03"),
             cl("clock_counts_invocations", "clock() - old(clock()) == ncalls(inner(self)) - old(ncalls(inner(self)))", tags="C03"),
+            cl("own_counter_covers_invocations", "imp(instance_of(self, 'EvalCountingProblem'), "
+               "cast(self, 'ref:EvalCountingProblem')._n_evals - old(cast(self, 'ref:EvalCountingProblem')._n_evals) "
+               ">= clock() - old(clock())) and clock() >= old(clock())", tags="C03"),
             cl("counters_monotone", "forall(lambda o: imp(in_chain(self, o) and instance_of(o, 'EvalCountingProblem'), "
                "cast(o, 'ref:EvalCountingProblem')._n_evals >= old(cast(o, 'ref:EvalCountingProblem')._n_evals)), o='ref:Problem')")])
 
